@@ -106,7 +106,7 @@ type fakeClient struct {
 	// closeNotFound: CloseStream of a vBucket without a live stream is answered "no such stream", as a node does
 	closeNotFound bool
 	seqGate       func(aware bool) // called at the start of every sequence-number query, outside the lock
-	closing       map[uint16]bool // vBuckets for which a close request has arrived (reset by a successful OpenStream)
+	closing       map[uint16]bool  // vBuckets for which a close request has arrived (reset by a successful OpenStream)
 }
 
 func newFakeClient(numVb int) *fakeClient {
